@@ -720,7 +720,12 @@ public:
       res = res && m_alloc_env.is_top();
     }
     if (crab_domain_params_man::get().region_deallocation()) {
-      res = res && m_rgn_equiv_classes.is_top();
+      // A freshly created top value holds an empty union-find (neither
+      // top nor bottom, so that equivalence classes can be added to it):
+      // it does not constrain anything either.
+      res = res && (m_rgn_equiv_classes.is_top() ||
+                    (!m_rgn_equiv_classes.is_bottom() &&
+                     m_rgn_equiv_classes.is_empty()));
     }
     if (crab_domain_params_man::get().region_tag_analysis()) {
       res = res && m_tag_env.is_top();
